@@ -12,7 +12,7 @@ Recs == SeqsUpTo({97, 99, 103, 116}, MaxSeq)
 Queries == SeqsUpTo({97, 99, 110}, MaxQ) \cup {<<65, 67>>, <<78>>, <<103, 116, 110>>}
 Items == SetToSeq({[s |-> s, q |-> q, exact |-> e, nocomp |-> nc] : s \in Recs, q \in Queries, e \in BOOLEAN, nc \in BOOLEAN})
 NItems == (Len(Items) + Batch - 1) \div Batch
-Picked == SelectSeq([j \in 1..NItems |-> j], LAMBDA j : j % Stride = Offset % Stride)
+Picked == SelectSeq([j \in 1..NItems |-> j], LAMBDA j : (j + (j \div Stride) + (j \div (Stride * Stride))) % Stride = Offset % Stride)
 BatchJson(b) ==
   LET lo == (b - 1) * Batch  n == IF Len(Items) - lo < Batch THEN Len(Items) - lo ELSE Batch
   IN [id |-> "cs" \o ToString(b), fam |-> "clisearch", items |-> [j \in 1..n |-> Items[lo + j]]]
